@@ -9,6 +9,7 @@ import (
 	"net"
 	"time"
 
+	"github.com/insomniacslk/dhcp/dhcpv4/client4"
 	"github.com/insomniacslk/dhcp/dhcpv4/nclient4"
 	simrt "github.com/insomniacslk/dhcp/zzsimrt"
 	"github.com/mdlayher/packet"
@@ -366,7 +367,7 @@ func (st *rawState) frame(i int) ([]byte, string) {
 		s.Fault("frame-df-flag")
 	}
 	tag := "valid"
-	switch t.Weighted(8, 3, 3, 2, 2, 2, 2, 2, 2, 2, 1, 1, 1) {
+	switch t.Weighted(8, 3, 3, 2, 2, 2, 2, 2, 2, 2, 1, 1, 1, 2) {
 	case 1:
 		f.ihl = 6 + t.Choose(10)
 		tag = fmt.Sprintf("ip-options ihl=%d", f.ihl)
@@ -435,8 +436,88 @@ func (st *rawState) frame(i int) ([]byte, string) {
 		f.padding = 40
 		tag = "ihl-beyond-total-length"
 		s.Fault("frame-ihl-gt-totlen")
+	case 13:
+		// a frame as the deprecated client4 builds it for its raw socket (MakeRawUDPPacket):
+		// the second frame encoder of the library. It is judged structurally here and then
+		// travels the link like any other peer's frame.
+		src := net.UDPAddr{IP: net.IP(append([]byte(nil), f.srcIP[:]...)), Port: int(f.srcPort)}
+		dst := net.UDPAddr{IP: net.IP(append([]byte(nil), f.dstIP[:]...)), Port: int(f.dstPort)}
+		if t.Coin(1, 2) {
+			src.IP = net.IPv4(f.srcIP[0], f.srcIP[1], f.srcIP[2], f.srcIP[3]) // 16-byte form
+		}
+		if t.Coin(1, 2) {
+			dst.IP = net.IPv4(f.dstIP[0], f.dstIP[1], f.dstIP[2], f.dstIP[3])
+		}
+		orig := append([]byte(nil), f.payload...)
+		b, err := client4.MakeRawUDPPacket(f.payload, dst, src)
+		s.Fault("frame-from-client4-MakeRawUDPPacket")
+		if err != nil {
+			s.Violate("W-legacy-error", fmt.Sprintf("client4.MakeRawUDPPacket failed for a %d-byte payload %v -> %v: %v", len(orig), &src, &dst, err))
+			return buildFrame(f), "valid"
+		}
+		if !bytes.Equal(orig, f.payload) {
+			s.Violate("W-legacy-caller-buffer", "client4.MakeRawUDPPacket modified the caller's payload")
+		}
+		if msg := legacyFrameDefect(b, orig, f); msg != "" {
+			s.Violate("W-legacy-frame", "client4.MakeRawUDPPacket: "+msg)
+		}
+		return append([]byte(nil), b...), "client4-frame"
 	}
 	return buildFrame(f), tag
+}
+
+// legacyFrameDefect judges a frame built by client4.MakeRawUDPPacket for a raw
+// IP_HDRINCL socket: everything the kernel does not fill in must be right (version,
+// IHL 5, total and UDP lengths, protocol, addresses, ports, payload); the two
+// checksums are either left zero (header: filled in by the kernel; UDP: "not
+// computed", legal over IPv4) or must verify.
+func legacyFrameDefect(b, payload []byte, f frameSpec) string {
+	want := 28 + len(payload)
+	if len(b) != want {
+		return fmt.Sprintf("frame is %d bytes, want %d (20 + 8 + %d)", len(b), want, len(payload))
+	}
+	if b[0] != 0x45 {
+		return fmt.Sprintf("version/IHL byte %#02x, want 0x45", b[0])
+	}
+	if tl := int(binary.BigEndian.Uint16(b[2:])); tl != want {
+		return fmt.Sprintf("IP total length %d, want %d", tl, want)
+	}
+	if binary.BigEndian.Uint16(b[6:])&0x3fff != 0 {
+		return "fragment offset / more-fragments set"
+	}
+	if b[8] == 0 {
+		return "TTL 0"
+	}
+	if b[9] != 17 {
+		return fmt.Sprintf("protocol %d, want 17", b[9])
+	}
+	if binary.BigEndian.Uint16(b[10:]) != 0 && csum1071(b[:20]) != 0xffff {
+		return "IPv4 header checksum neither zero nor verifying"
+	}
+	if !bytes.Equal(b[12:16], f.srcIP[:]) || !bytes.Equal(b[16:20], f.dstIP[:]) {
+		return fmt.Sprintf("addresses %v -> %v, want %v -> %v", net.IP(b[12:16]), net.IP(b[16:20]), net.IP(f.srcIP[:]), net.IP(f.dstIP[:]))
+	}
+	u := b[20:]
+	if sp, dp := binary.BigEndian.Uint16(u[0:]), binary.BigEndian.Uint16(u[2:]); sp != f.srcPort || dp != f.dstPort {
+		return fmt.Sprintf("ports %d->%d, want %d->%d", sp, dp, f.srcPort, f.dstPort)
+	}
+	if ul := int(binary.BigEndian.Uint16(u[4:])); ul != 8+len(payload) {
+		return fmt.Sprintf("UDP length %d, want %d", ul, 8+len(payload))
+	}
+	if !bytes.Equal(u[8:], payload) {
+		return "payload changed"
+	}
+	if binary.BigEndian.Uint16(u[6:]) != 0 {
+		pseudo := make([]byte, 12)
+		copy(pseudo[0:4], b[12:16])
+		copy(pseudo[4:8], b[16:20])
+		pseudo[9] = 17
+		binary.BigEndian.PutUint16(pseudo[10:], uint16(len(u)))
+		if csum1071(pseudo, u) != 0xffff {
+			return "UDP checksum neither zero nor verifying"
+		}
+	}
+	return ""
 }
 
 // buildFrameRawIHL writes an IHL below 5 into an otherwise ordinary 20-byte header.
